@@ -131,4 +131,54 @@ def applyBatch {β κ : Type} (F : LoopFacts) (handler : State β → Nat → κ
 def restart {β : Type} (empty : State β) (sm : SM β) : SM β :=
   { published := sm.file.getD empty, file := sm.file }
 
+/-- Rollback facts the extractor reads out of one `apply*` handler of
+    mutation_handlers.go (regenerated into `WK.Gen.C18.handlerFacts`). -/
+structure HandlerFact where
+  name : String
+  /-- text of the snapshot expression in `before := <expr>` (`-` if the handler takes none) -/
+  snapshot : String
+  /-- number of statements that write through `next` (assignments, upserts, Normalize) -/
+  writes : Nat
+  /-- a write through `next` precedes the snapshot -/
+  writesBeforeSnapshot : Bool
+  /-- every `validateChanged(..)` call is `validateChanged(next, before, cmd)` -/
+  validateArgsOk : Bool
+  /-- every `return reject(..)` after the snapshot is directly preceded by `*next = before` -/
+  rejectsRestore : Bool
+  /-- returns after the snapshot that are none of validateChanged / reject / noop / Updated -/
+  otherReturns : Nat
+  /-- the handler is `applyInit`'s shape: its only write is `*next = initial; return changed()` -/
+  wholeReplace : Bool
+deriving Repr, DecidableEq
+
+/-- the rollback discipline: a handler that writes through the candidate takes
+    its snapshot as a DEEP copy OF THE CANDIDATE (`next.Clone()`) before the first
+    write and gives it back on every rejecting path. -/
+def HandlerFact.ok (h : HandlerFact) : Bool :=
+  h.writes == 0 || h.wholeReplace ||
+  (h.snapshot == "next.Clone()" && !h.writesBeforeSnapshot && h.validateArgsOk && h.rejectsRestore && h.otherReturns == 0)
+
+/-! ### the same loop over an arbitrary `mutate` function (the handlers' contract
+    is then a hypothesis on `mutate`: `WK.C18.MutateContract`) -/
+
+def stepEntryM {β κ : Type} (F : LoopFacts) (mutate : State β → Nat → κ → State β × Outcome)
+    (current : State β) (acc : State β × List Result) (e : Entry κ) : State β × List Result :=
+  if guardFires F current acc.1 e.idx then
+    (acc.1, acc.2 ++ [⟨.noop reasonAlreadyApplied, acc.1.rev, acc.1.applied⟩])
+  else
+    let r := mutate acc.1 e.idx e.cmd
+    let n2 : State β := if raises F r.1 e.idx then { r.1 with applied := e.idx } else r.1
+    let ra := if n2.rev = 0 ∧ r.2.isRejected then e.idx else n2.applied
+    (n2, acc.2 ++ [⟨r.2, n2.rev, ra⟩])
+
+def runEntriesM {β κ : Type} (F : LoopFacts) (mutate : State β → Nat → κ → State β × Outcome)
+    (current : State β) (es : List (Entry κ)) (acc : State β × List Result) : State β × List Result :=
+  es.foldl (stepEntryM F mutate current) acc
+
+def applyBatchM {β κ : Type} (F : LoopFacts) (mutate : State β → Nat → κ → State β × Outcome)
+    (sm : SM β) (es : List (Entry κ)) : SM β × List Result :=
+  let r := runEntriesM F mutate sm.published es (sm.published, [])
+  if r.1.rev = 0 then (sm, r.2)
+  else ({ published := r.1, file := some r.1 }, r.2)
+
 end WK.C18
